@@ -15,7 +15,9 @@ RULE = ("TLC enumerates solution descriptors per dimension with the other dimens
         "time-step patterns (1..3 states, start 0/3, gaps); every real leaf x 10 value classes (zero, -0.0, int-valued "
         "float, python int, ordinary, 1e-7-like, 1e20-like, negative, 17 significant digits, extreme magnitudes) and all "
         "leaves uniform; numpy scalar leaves (float64 / int64 for every kind, float32 for KS); "
-        "all 8 metadata presence subsets, every computation-time class / date token / processor-name text class "
+        "state order (ascending, adjacent swap, rotation keeping the first state, gaps, smallest step not first, descending) "
+        "x route (writer: Trajectory in that order; doc: state nodes of the dumped document permuted, then fromstring) "
+        "for every kind and for cooperative pairs; all 8 metadata presence subsets, every computation-time class / date token / processor-name text class "
         "(plain, (R)/(TM), XML specials, blanks, non-ASCII, empty, 200 chars, auto, tabs/newlines) / scenario-id token; "
         "every sequence of 2..3 kinds as a cooperative solution (in and out of schema order, ids ascending and not); "
         "plus a seeded random sample mixing all dimensions.  Each descriptor is built through public constructors, "
@@ -23,7 +25,7 @@ RULE = ("TLC enumerates solution descriptors per dimension with the other dimens
         "TLA+ schema automaton), read back with CommonRoadSolutionReader.fromstring.  distinct_nontrivial = distinct "
         "descriptors.")
 ASSUMPTIONS = ["state values are finite python floats / ints picked from a fixed table per value-class token",
-               "time steps ascending as given (Trajectory documents an ordered state list); planning problem ids distinct",
+               "time steps of a trajectory distinct (any order; Trajectory only checks the first one); planning problem ids distinct",
                "processor_name 'auto' (documented: determined automatically) and names with tabs/line breaks (XML attribute "
                "normalisation) are EITHER bands declared in SolutionCodec.tla: read-back must work, the value is not asserted",
                "computation time 0 / negative is rejected by the Solution constructor and therefore not a solution",
@@ -105,17 +107,24 @@ def _random_case(rng):
     pps = []
     for i in range(n):
         k, m = rng.choice(_KM)
-        ns = rng.randint(1, 3)
+        ns = rng.randint(1, 4)
         t, steps = rng.randint(0, 40), []
         for _ in range(ns):
             steps.append(t)
             t += rng.choice([1, 1, 1, 2, 7])
         classes = _RANDOM_CLASSES
+        o = rng.random()
+        if o < 0.25 and ns > 1:                      # keep the first state, shuffle the rest
+            rest = steps[1:]
+            rng.shuffle(rest)
+            steps = steps[:1] + rest
+        elif o < 0.4:
+            rng.shuffle(steps)
         pps.append({"kind": k, "model": m, "vtype": rng.randint(1, 4),
                     "cost": rng.choice(_PMCOSTS if m == "PM" else _COSTS), "ppid": ids[i], "steps": steps,
                     "vals": [[rng.choice(classes) for _ in range(_NV[k])] for _ in range(ns)]})
     return {"pps": pps, "ct": rng.choice(["None"] + sorted(_CT)), "date": rng.choice(["None", "default"] + sorted(_DATE)),
-            "proc": rng.choice(["None"] + sorted(_PROC)), "scen": rng.choice(sorted(_SCEN)), "src": "random"}
+            "proc": rng.choice(["None"] + sorted(_PROC)), "scen": rng.choice(sorted(_SCEN)), "route": rng.choice(["writer", "writer", "doc"]), "src": "random"}
 
 
 def cases(ctx):
@@ -238,7 +247,9 @@ def _build(sol):
                     j += 1
             states.append(cls(**kw))
             ovals.append(row)
-        traj = Trajectory(pp["steps"][0], states)
+        # route "writer": the state list stands in `steps` order; route "doc": ascending (the nodes are permuted later)
+        order = sorted(range(len(states)), key=lambda s: pp["steps"][s]) if sol["route"] == "doc" else range(len(states))
+        traj = Trajectory(pp["steps"][order[0]], [states[s] for s in order])
         ppss.append(PlanningProblemSolution(pp["ppid"], VehicleModel[pp["model"]], VehicleType[_VTYPE[pp["vtype"]]],
                                             CostFunction[pp["cost"]], traj))
         orig.append(ovals)
@@ -253,7 +264,28 @@ def _build(sol):
     return Solution(ScenarioID(*_SCEN[sol["scen"]]), ppss, **kw), orig, fields
 
 
+def _permute_states(text, sol):
+    """Route "doc": put the state nodes of every trajectory element into the descriptor's `steps` order."""
+    from lxml import etree
+    root = etree.fromstring(text.encode("utf-8"))
+    for tr, pp in zip(list(root), sol["pps"]):
+        nodes = list(tr)                                   # written ascending
+        asc = sorted(pp["steps"])
+        for nd in nodes:
+            tr.remove(nd)
+        for t in pp["steps"]:
+            tr.append(nodes[asc.index(t)])
+    return etree.tostring(root, encoding="unicode")
+
+
 def _sigs(sol):
+    r, s = _sigs0(sol)
+    if any(p["steps"] != sorted(p["steps"]) for p in sol["pps"]):      # an ascending "doc" document equals the writer's
+        r = ("doc" if sol["route"] == "doc" else "") + r + "+scrambled"
+    return r, s
+
+
+def _sigs0(sol):
     kinds = [p["kind"] for p in sol["pps"]]
     kst = "+KST" if "KST" in kinds else ""
     np32 = "+np32" if any(v == "np32" for p in sol["pps"] for row in p["vals"] for v in row) else ""
@@ -268,6 +300,7 @@ def _sigs(sol):
 def execute(case):
     use_repo()
     sol = {k: case[k] for k in ("pps", "ct", "date", "proc", "scen")}
+    sol["route"] = case.get("route", "writer")
     rsig, ssig = _sigs(sol)
     base = {}                   # the descriptor is logged once, in the first (write) event of the trace
     ev = []
@@ -276,6 +309,8 @@ def execute(case):
         real, orig, fields = _build(sol)
         from commonroad.common.solution import CommonRoadSolutionReader, CommonRoadSolutionWriter
         text = CommonRoadSolutionWriter(real).dump()
+        if sol["route"] == "doc":
+            text = _permute_states(text, sol)
         doc, verdict = _abstract_doc(text)
     except Exception as ex:
         ev.append(dict(base, op="write", sig=rsig, res=_exc(ex), fields=fields, sol=sol))
@@ -311,27 +346,25 @@ def execute(case):
                                   lambda x: []))
 
     def values():
+        # per read-back state r and leaf j: the written states (1-based, document order) whose leaf j has the same bits
         out = []
         for i, p in enumerate(bpps):
             attrs = _FIELDS[sol["pps"][i]["kind"]][1] if i < len(sol["pps"]) else []
             rows = []
-            for s, st in enumerate(p.trajectory.state_list):
+            for st in p.trajectory.state_list:
                 row, j = [], 0
                 for a in attrs:
                     got = getattr(st, a, None)
                     comps = [None, None] if (a == "position" and got is None) else (list(got) if a == "position" else [got])
                     for g in comps:
-                        try:
-                            o = orig[i][s][j]
-                            row.append("missing" if g is None else ("exact" if _bits(o) == _bits(g) else "differs"))
-                        except Exception as ex:
-                            row.append(_exc(ex))
+                        row.append([] if g is None else
+                                   [s + 1 for s in range(len(orig[i])) if _bits(orig[i][s][j]) == _bits(g)])
                         j += 1
                 rows.append(row)
             out.append(rows)
         return out
 
-    item("Values", vals=guard(values, lambda x: [[[x]]]))
+    item("Values", vals=guard(values, lambda x: []))
 
     def meta(o, b, same, yes):
         if b is None:
@@ -366,7 +399,7 @@ def corrupt(trace, rng):
     elif w == "TimeSteps":
         e["steps"][0][-1] += 1
     elif w == "Values":
-        e["vals"][-1][-1][rng.randrange(len(e["vals"][-1][-1]))] = "differs"
+        e["vals"][-1][-1][rng.randrange(len(e["vals"][-1][-1]))] = []
     elif w == "ComputationTime":
         e["ct"] = "differs" if e["ct"] != "differs" else "exact"
     elif w == "ProcessorName":
